@@ -7,6 +7,8 @@ From Coq Require Import ZArith Permutation.
 From Tevec Require Import Base.Num Base.XR Model.Features Model.Cmp Model.Norm Model.Binary Model.Reg Proofs.IdxRun Proofs.IdxPrefix
      Proofs.Kernels2 Proofs.Kernels3 Model.SortCmp Model.Rank Model.Partition Model.Quantile Model.KernelsMap
      Proofs.TransQuantile Proofs.KernelsMap Proofs.KernelsMap2 Proofs.OrderXR Proofs.KernelsXR.
+(* extension: the kernel traces step by step (part 12) *)
+From Tevec Require Import Model.KernelSteps Proofs.KernelSteps Model.KernelsMapFast Proofs.KernelsMapFast.
 
 (* (1) unchecked element reads and output writes of the remove/add bodies are in bounds *)
 Theorem C10_apply_reads_in_bounds :
@@ -356,6 +358,179 @@ Example C10_partition_example :
   /\ vpartition (A := Z) (T := Z) (DT := IsNone_never) (DX := IsNoneX_never) 1 true false [30; 10; 20]%Z = Ok [10; 20]%Z.
 Proof. repeat split; vm_compute; reflexivity. Qed.
 
+(* (12) the kernel traces STEP BY STEP (Model/KernelSteps.v) — the form in which the instrumented implementation
+   run is compared with the model, one callback invocation at a time (Run/RunC10.v : run_ksteps, run_ksteps2,
+   run_vrank_segs; harness/src/bin/c10.rs part=ktrace) *)
+(* concatenating the steps gives the kernel trace back: nothing added, dropped or reordered — every traced
+   callback, every window (0 and > len included), both bodies, one or two series *)
+Theorem C10_kernel_steps_flatten :
+  forall (T St O : Type) (body two : bool) (w : nat) (cbt : St -> option nat * nat * T -> tr (St * O)) (s0 : St)
+         (xs : list T),
+    flat_map kstep_accs (kernel_steps body two w cbt s0 xs) = kernel_trace body two w cbt s0 xs.
+Proof. intros. apply kernel_steps_flatten. Qed.
+Theorem C10_entry_steps_flatten :
+  forall (A T : Type) (NA : Num A) (DT : IsNone T A) (scmp : option A -> option A -> comparison) (tmin tmax : A)
+         (body : bool) (w : nat) (mp : option nat) (pct rev : bool) (xs : list T),
+    flat_map kstep_accs (steps_ts_vext scmp body w mp xs) = trace_ts_vext scmp body w mp xs /\
+    flat_map kstep_accs (steps_ts_varg scmp body w mp xs) = trace_ts_varg scmp body w mp xs /\
+    flat_map kstep_accs (steps_ts_vrank (B := A) body w mp pct rev xs) = trace_ts_vrank (B := A) body w mp pct rev xs /\
+    flat_map kstep_accs (steps_ts_vminmaxnorm tmin tmax body w mp xs) = trace_ts_vminmaxnorm tmin tmax body w mp xs.
+Proof.
+  intros. split; [apply steps_ts_vext_flatten|]. split; [apply steps_ts_varg_flatten|].
+  split; [apply steps_ts_vrank_flatten|apply steps_ts_vminmaxnorm_flatten].
+Qed.
+Theorem C10_resid_steps_flatten :
+  forall (A T1 T2 : Type) (NA : Num A) (D1 : IsNone T1 A) (D2 : IsNone T2 A) (K : rstat) (body : bool) (w : nat)
+         (mp : option nat) (xs : list T1) (ys : list T2),
+    flat_map kstep_accs (steps_ts_vregx_resid (A := A) K body w mp xs ys)
+    = trace_ts_vregx_resid (A := A) K body w mp xs ys.
+Proof. intros. apply steps_ts_vregx_resid_flatten. Qed.
+(* at most one step per position; only the LAST step can carry a panic (unwinding: nothing follows) *)
+Theorem C10_kernel_steps_count :
+  forall (T St O : Type) (body two : bool) (w : nat) (cbt : St -> option nat * nat * T -> tr (St * O)) (s0 : St)
+         (xs : list T),
+    length (kernel_steps body two w cbt s0 xs) <= length xs /\
+    (forall i k, nth_error (kernel_steps body two w cbt s0 xs) i = Some k -> ks_panic k <> None ->
+                 S i = length (kernel_steps body two w cbt s0 xs)).
+Proof. intros. split; [apply kernel_steps_length|intros i k; apply kernel_steps_panic_last]. Qed.
+(* whenever the erased model run returns there is exactly one step per position and none carries a panic *)
+Theorem C10_kernel_steps_complete :
+  forall (T St O : Type) (body two : bool) (w : nat) (cbt : St -> option nat * nat * T -> tr (St * O))
+         (cb : St -> option nat * nat * T -> res (St * O)) (s0 : St) (xs : list T) (out : list O),
+    (forall s a, snd (cbt s a) = cb s a) -> 1 <= w ->
+    idx_run body w cb s0 xs = Done out ->
+    length (kernel_steps body two w cbt s0 xs) = length xs /\
+    Forall (fun k => ks_panic k = None) (kernel_steps body two w cbt s0 xs).
+Proof. intros T St O body two w cbt cb s0 xs out He Hw Hr. exact (kernel_steps_complete body two w cbt cb s0 xs out He Hw Hr). Qed.
+(* step number i IS position i: its driver reads are those of position i, its write (if the callback returned)
+   is slot i and nothing else, and a callback that reads inside [start, end] reads inside the window of i *)
+Theorem C10_kernel_step_is_position :
+  forall (T St O : Type) (body two : bool) (w : nat) (cbt : St -> option nat * nat * T -> tr (St * O)) (s0 : St)
+         (xs : list T) (i : nat) (k : kstep),
+    (forall s st e v, start_le st e -> reads_within (start_or_0 st) e (fst (cbt s (st, e, v)))) ->
+    1 <= w ->
+    nth_error (kernel_steps body two w cbt s0 xs) i = Some k ->
+    i < length xs /\
+    ks_drv k = (if body then drv_reads two i else []) /\
+    (ks_panic k = None -> ks_wr k = if body then [AUset i] else []) /\
+    (ks_panic k <> None -> ks_wr k = []) /\
+    reads_within (start_or_0 (start_of (eff_window body w (length xs)) i)) i (ks_cb k).
+Proof. intros T St O body two w cbt s0 xs i k Hcb Hw Hk. exact (kernel_step_shape body two w cbt s0 xs i k Hcb Hw Hk). Qed.
+(* the five kernels: the callback reads of step i are unchecked reads of indices of the window of position i
+   (window clamped to the length in the cmp family) — every series, window, min_periods, both bodies *)
+Theorem C10_steps_ts_vmin_vmax_in_window :
+  forall (A T : Type) (NA : Num A) (DT : IsNone T A) (scmp : option A -> option A -> comparison) (body : bool)
+         (w : nat) (mp : option nat) (xs : list T) (i : nat) (k : kstep),
+    nth_error (steps_ts_vext scmp body w mp xs) i = Some k ->
+    step_in_window body (cmp_window w xs) (length xs) i k.
+Proof. intros. eapply steps_ts_vext_in_window; eassumption. Qed.
+Theorem C10_steps_ts_vargmin_vargmax_in_window :
+  forall (A T : Type) (NA : Num A) (DT : IsNone T A) (scmp : option A -> option A -> comparison) (body : bool)
+         (w : nat) (mp : option nat) (xs : list T) (i : nat) (k : kstep),
+    nth_error (steps_ts_varg scmp body w mp xs) i = Some k ->
+    step_in_window body (cmp_window w xs) (length xs) i k.
+Proof. intros. eapply steps_ts_varg_in_window; eassumption. Qed.
+Theorem C10_steps_ts_vrank_in_window :
+  forall (A T B : Type) (NA : Num A) (DT : IsNone T A) (NB : Num B) (body : bool) (w : nat) (mp : option nat)
+         (pct rev : bool) (xs : list T) (i : nat) (k : kstep),
+    nth_error (steps_ts_vrank (B := B) body w mp pct rev xs) i = Some k ->
+    step_in_window body (cmp_window w xs) (length xs) i k.
+Proof. intros. eapply steps_ts_vrank_in_window; eassumption. Qed.
+Theorem C10_steps_ts_vminmaxnorm_in_window :
+  forall (A T : Type) (NA : Num A) (DT : IsNone T A) (tmin tmax : A) (body : bool) (w : nat) (mp : option nat)
+         (xs : list T) (i : nat) (k : kstep),
+    nth_error (steps_ts_vminmaxnorm tmin tmax body w mp xs) i = Some k ->
+    step_in_window body w (length xs) i k.
+Proof. intros. eapply steps_ts_vminmaxnorm_in_window; eassumption. Qed.
+Theorem C10_steps_ts_vregx_resid_in_window :
+  forall (A T1 T2 : Type) (NA : Num A) (D1 : IsNone T1 A) (D2 : IsNone T2 A) (K : rstat) (body : bool) (w : nat)
+         (mp : option nat) (xs : list T1) (ys : list T2) (i : nat) (k : kstep),
+    nth_error (steps_ts_vregx_resid (A := A) K body w mp xs ys) i = Some k ->
+    i < Nat.min (length xs) (length ys) /\
+    ks_drv k = (if body then drv_reads true i else []) /\
+    (ks_panic k = None -> ks_wr k = if body then [AUset i] else []) /\
+    reads_within (start_or_0 (start_of (eff_window body w (Nat.min (length xs) (length ys))) i)) i (ks_cb k).
+Proof. intros. eapply steps_ts_vregx_resid_in_window; eassumption. Qed.
+(* the cells of a step: the sorted read numbers are a permutation of the numbers of the reads the callback
+   performs (nothing lost, nothing invented) and sorted; a read of index i of view v is among them exactly
+   when the step performs it *)
+Theorem C10_step_cells_sound :
+  forall t : list acc,
+    Permutation (read_nums t) (map acc_num (filter is_read t)) /\ Sorted.Sorted Z.le (read_nums t).
+Proof. exact read_nums_sound. Qed.
+Theorem C10_step_cells_uget :
+  forall (t : list acc) (v i : nat),
+    Forall (fun a => match a with AUget v' i' => (Z.of_nat i' < 1000000)%Z | _ => False end) t ->
+    (Z.of_nat i < 1000000)%Z ->
+    (In (1000000 * (1 + Z.of_nat v) + Z.of_nat i)%Z (read_nums t) <-> In (AUget v i) t).
+Proof. exact read_nums_uget. Qed.
+(* vrank cut at its writes: the segments concatenate to the observable trace (reads of the series, writes; the
+   reads of the internal Vec<usize> are dropped), their writes are the writes of vrank_tr — hence every slot
+   exactly once on the uninitialised-buffer path —, every access of every segment is in bounds, and only the
+   last segment can lack a write *)
+Theorem C10_vrank_segs_flatten :
+  forall (A T : Type) (NA : Num A) (DT : IsNone T A) (DX : IsNoneX T A) (pct rev : bool) (xs : list T),
+    flat_map wseg_accs (vrank_segs pct rev xs) = filter observable (fst (vrank_tr pct rev xs)) /\
+    seg_writes (vrank_segs pct rev xs) = writes_of (fst (vrank_tr pct rev xs)) /\
+    (forall i s, nth_error (vrank_segs pct rev xs) i = Some s -> ws_write s = None ->
+                 S i = length (vrank_segs pct rev xs)).
+Proof.
+  intros. split; [apply vrank_segs_flatten|]. split; [apply vrank_segs_writes|].
+  intros i s. apply vrank_segs_write_last.
+Qed.
+Theorem C10_vrank_segs_each_slot_once :
+  forall (A T : Type) (NA : Num A) (DT : IsNone T A) (DX : IsNoneX T A) (pct rev : bool) (xs : list T),
+    2 <= length xs ->
+    get_is_none xs (nth 0 (isort (cmp_idx (cmp_dir rev) xs) (seq 0 (length xs))) 0) = false ->
+    Permutation (seg_writes (vrank_segs pct rev xs)) (seq 0 (length xs)).
+Proof. intros. apply vrank_segs_each_slot_once; assumption. Qed.
+Theorem C10_vrank_segs_in_bounds :
+  forall (A T : Type) (NA : Num A) (DT : IsNone T A) (DX : IsNoneX T A) (pct rev : bool) (xs : list T),
+    Forall (fun s => Forall (acc_ok (length xs) (length xs)) (wseg_accs s)) (vrank_segs pct rev xs).
+Proof. intros. apply vrank_segs_in_bounds. Qed.
+(* the interpreter of Run/RunC10.v runs vrank_tr_fast: the text of vrank_tr with a bind that evaluates its
+   continuation once (vm_compute shares nothing; `tbind` mentions `f x` twice) — the same function *)
+Theorem C10_vrank_tr_fast_eq :
+  forall (A T : Type) (NA : Num A) (DT : IsNone T A) (DX : IsNoneX T A) (pct rev : bool) (xs : list T),
+    vrank_tr_fast pct rev xs = vrank_tr pct rev xs /\ vrank_segs_fast pct rev xs = vrank_segs pct rev xs.
+Proof. intros. split; [apply vrank_tr_fast_eq|apply vrank_segs_fast_eq]. Qed.
+(* the class representative used to compare vrank "modulo ties": an index <= i holding an element of the class *)
+Theorem C10_class_rep :
+  forall (T : Type) (same : T -> T -> bool) (xs : list T) (i : nat),
+    class_rep same xs i <= i /\
+    ((forall y, same y y = true) -> forall x, nth_error xs i = Some x ->
+       exists y, nth_error xs (class_rep same xs i) = Some y /\ same y x = true).
+Proof. intros. split; [apply class_rep_le|intros Hr x Hx; apply class_rep_same; assumption]. Qed.
+
+Example C10_kernel_steps_example :
+  let xs := [3; 1; 2; 5]%Z in
+  let steps := steps_ts_vext (A := Z) (T := Z) (DT := IsNone_never) (Cmp.sort_cmp (A := Z)) true 2 (Some 1) xs in
+  map (fun k => (ks_drv k, read_nums (ks_cb k), ks_wr k, ks_panic k)) steps
+  = [([AUget 0 0], [], [AUset 0], None);
+     ([AUget 0 1], [1000000], [AUset 1], None);
+     ([AUget 0 2], [1000001], [AUset 2], None);
+     ([AUget 0 3], [1000002; 1000002; 1000002; 1000003], [AUset 3], None)]%Z
+  /\ ts_vmin (A := Z) (T := Z) (DT := IsNone_never) true 2 (Some 1) xs = Done [Some 3; Some 1; Some 1; Some 2]%Z
+  /\ nth_error steps 3 = Some {| ks_drv := [AUget 0 3]; ks_cb := [AUget 0 2; AUget 0 2; AUget 0 3; AUget 0 2];
+                                 ks_wr := [AUset 3]; ks_panic := None |}.
+Proof. repeat split; vm_compute; reflexivity. Qed.
+(* a step that carries a panic exists (Some(NaN) analogue at an integer carrier is impossible; the residual
+   kernel's index body with a shorter second series has no step at all) *)
+Example C10_resid_steps_example :
+  map (fun k => (ks_drv k, read_nums (ks_cb k), ks_wr k))
+      (steps_ts_vregx_resid (A := Z) (T1 := Z) (T2 := Z) (D1 := IsNone_never) (D2 := IsNone_never) RMean false 2 (Some 1)
+                            [1; 2; 3]%Z [5; 7]%Z)
+  = [([], [1000000; 2000000], []); ([], [1000000; 1000000; 1000001; 2000000; 2000000; 2000001], [])]%Z
+  /\ steps_ts_vregx_resid (A := Z) (T1 := Z) (T2 := Z) (D1 := IsNone_never) (D2 := IsNone_never) RMean true 2 (Some 1)
+                          [1; 2; 3]%Z [5; 7]%Z = [].
+Proof. split; vm_compute; reflexivity. Qed.
+Example C10_vrank_segs_example :
+  map (fun s => (ws_reads s, ws_write s))
+      (vrank_segs (A := Z) (T := Z) (DT := IsNone_never) (DX := IsNoneX_never) false false [30; 10; 20]%Z)
+  = [([AUget 0 1; AUget 0 1; AUget 0 2], Some 1); ([AUget 0 2; AUget 0 0], Some 2); ([], Some 0)]
+  /\ class_rep Z.eqb [30; 10; 30; 10]%Z 3 = 1 /\ class_rep Z.eqb [30; 10; 30; 10]%Z 1 = 1.
+Proof. repeat split; vm_compute; reflexivity. Qed.
+
 Print Assumptions C10_apply_reads_in_bounds.
 Print Assumptions C10_apply2_reads_in_bounds.
 Print Assumptions C10_idx_reads_in_bounds.
@@ -408,3 +583,21 @@ Print Assumptions C10_vquantile_index_in_range.
 Print Assumptions C10_vquantile_never_panics.
 Print Assumptions C10_vquantile_vmedian_never_panic_real.
 Print Assumptions C10_select_nth_panics_iff_out_of_range.
+Print Assumptions C10_kernel_steps_flatten.
+Print Assumptions C10_entry_steps_flatten.
+Print Assumptions C10_resid_steps_flatten.
+Print Assumptions C10_kernel_steps_count.
+Print Assumptions C10_kernel_steps_complete.
+Print Assumptions C10_kernel_step_is_position.
+Print Assumptions C10_steps_ts_vmin_vmax_in_window.
+Print Assumptions C10_steps_ts_vargmin_vargmax_in_window.
+Print Assumptions C10_steps_ts_vrank_in_window.
+Print Assumptions C10_steps_ts_vminmaxnorm_in_window.
+Print Assumptions C10_steps_ts_vregx_resid_in_window.
+Print Assumptions C10_step_cells_sound.
+Print Assumptions C10_step_cells_uget.
+Print Assumptions C10_vrank_segs_flatten.
+Print Assumptions C10_vrank_segs_each_slot_once.
+Print Assumptions C10_vrank_segs_in_bounds.
+Print Assumptions C10_class_rep.
+Print Assumptions C10_vrank_tr_fast_eq.
